@@ -10,6 +10,7 @@ import Peppi.Lemmas.GenFile
 import Peppi.Lemmas.GenInst
 import Peppi.Lemmas.GenCor
 import Peppi.Lemmas.GenExample
+import Peppi.Lemmas.Longer
 set_option linter.unusedVariables false
 namespace Peppi.Props.C08
 
@@ -80,7 +81,7 @@ theorem C08_any (T : TextOracle) (r : Replay) (s : Start) (gk : Option GeckoBloc
 /- from `Peppi.Lemmas.GenExample` -/
 open Extracted in
 theorem exampleIrr_A :
-    (exIrr (startOf (exBlock 3 16 760)).version (portOccupancy (startOf (exBlock 3 16 760)))
+    (exIrr (startOf (exBlock 3 16 760)).version 760 6 none (portOccupancy (startOf (exBlock 3 16 760)))
       (exFrames [-123, -122, -122] 17 32 2 16 1 true) []).OK T0
       (exReplay (exBlock 3 16 760) (exFrames [-123, -122, -122] 17 32 2 16 1 true) [2, 255, 0, 1, 255, 255]) (startOf (exBlock 3 16 760)) none :=
   _root_.Peppi.exampleIrr_A 
@@ -88,7 +89,7 @@ theorem exampleIrr_A :
 /- from `Peppi.Lemmas.GenExample` -/
 open Extracted in
 theorem exampleIrr_B :
-    (exIrr (startOf (exBlock 2 2 418)).version (portOccupancy (startOf (exBlock 2 2 418)))
+    (exIrr (startOf (exBlock 2 2 418)).version 418 2 none (portOccupancy (startOf (exBlock 2 2 418)))
       (exFrames [-123, -122, -122] 16 23 1 0 0 false) []).OK T0
       (exReplay (exBlock 2 2 418) (exFrames [-123, -122, -122] 16 23 1 0 0 false) [2, 255]) (startOf (exBlock 2 2 418)) none :=
   _root_.Peppi.exampleIrr_B 
@@ -96,7 +97,7 @@ theorem exampleIrr_B :
 /- from `Peppi.Lemmas.GenExample` -/
 open Extracted in
 theorem exampleIrr_C :
-    (exIrr (startOf (exBlock 1 0 352)).version (portOccupancy (startOf (exBlock 1 0 352)))
+    (exIrr (startOf (exBlock 1 0 352)).version 352 1 none (portOccupancy (startOf (exBlock 1 0 352)))
       (exFrames [-123, -122, -121] 14 12 1 0 0 false) []).OK T0
       (exReplay (exBlock 1 0 352) (exFrames [-123, -122, -121] 14 12 1 0 0 false) [2]) (startOf (exBlock 1 0 352)) none :=
   _root_.Peppi.exampleIrr_C 
@@ -104,9 +105,31 @@ theorem exampleIrr_C :
 /- from `Peppi.Lemmas.GenExample` -/
 open Extracted in
 theorem exampleIrr_G :
-    (exIrr (startOf (exBlock 3 16 760)).version (portOccupancy (startOf (exBlock 3 16 760)))
+    (exIrr (startOf (exBlock 3 16 760)).version 760 6 (some exGecko) (portOccupancy (startOf (exBlock 3 16 760)))
       (exFrames [-123, -122, -122] 17 32 2 16 1 true) []).OK T0
       (exReplay (exBlock 3 16 760) (exFrames [-123, -122, -122] 17 32 2 16 1 true) [2, 255, 0, 1, 255, 255]) (startOf (exBlock 3 16 760)) (some exGecko) :=
   _root_.Peppi.exampleIrr_G 
+
+/- from `Peppi.Lemmas.Longer` -/
+open Extracted in
+theorem handleEvent_extra (st st' : PState) (code : Nat) (buf x : Bytes) (hc : isFrameEv code = true)
+    (h : handleEvent st code buf = .ok st') : handleEvent st code (buf ++ x) = .ok st' :=
+  _root_.Peppi.handleEvent_extra st st' code buf x hc h
+
+/- from `Peppi.Lemmas.Longer` -/
+open Extracted in
+theorem runEvents_longer {es' es : List (Nat × Bytes)} (hl : Longer es' es) : ∀ (st st' : PState),
+    runEvents st es = .ok st' → runEvents st es' = .ok st' :=
+  _root_.Peppi.runEvents_longer hl
+
+/- from `Peppi.Lemmas.GenExample` -/
+open Extracted in
+theorem exampleIrr_N :
+    ({ table := padTable (canonTableAny (startOf (exBlock 3 17 760)).version 760 6 none) ++ [(0x50, 3)],
+       mixed := [(0x50, [1, 2, 3])] ++ padEvents (canonEventsAny (startOf (exBlock 3 17 760)).version (portOccupancy (startOf (exBlock 3 17 760)))
+         (exFrames [-123, -122, -122] 17 32 2 16 1 true)),
+       junk := [] } : Irr).OK T0
+      (exReplay (exBlock 3 17 760) (exFrames [-123, -122, -122] 17 32 2 16 1 true) [2, 255, 0, 1, 255, 255]) (startOf (exBlock 3 17 760)) none :=
+  _root_.Peppi.exampleIrr_N 
 
 end Peppi.Props.C08
